@@ -51,7 +51,7 @@ class StreamGen:
             'axiom': rng.choice([1, 2, 4]), 'pattern': rng.choice([1, 2]), 'inst': rng.choice([2, 4, 6]),
             'mp': rng.choice([2, 4, 6]), 'gen': rng.choice([0, 1, 3]), 'subst': rng.choice([0, 1, 3]),
             'save': rng.choice([1, 2]), 'load': rng.choice([1, 2]), 'pop': rng.choice([0, 1]),
-            'publish': rng.choice([0, 1, 2]), 'junk': rng.choice([0, 0, 1]), 'capture': rng.choice([0, 1, 2]), 'muprobe': rng.choice([0, 1, 2]),
+            'publish': rng.choice([0, 1, 2]), 'junk': rng.choice([0, 0, 1]), 'capture': rng.choice([0, 1, 2]), 'muprobe': rng.choice([0, 1, 2]), 'freshprobe': rng.choice([0, 1, 2]),
         }
         self.p_bad = rng.choice([0.0, 0.05, 0.15])    # adversarial (inapplicable) choices
 
@@ -249,6 +249,31 @@ class StreamGen:
         if rng.random() < 0.5:
             self.put(bytes([OP['Pop']]))
 
+    def op_fresh_probe(self):
+        """Generalization over a variable of a theorem whose consequent contains pending
+        substitutions: crosses the e_fresh judgement of ESubst/SSubst/MetaVar/Exists arms, with
+        the variable chosen regardless of whether the judgement holds (adversarial half)."""
+        rng, k = self.rng, self.k
+        x = rng.choice(k.evars)
+        y = rng.choice([e for e in k.evars if e != x] or [(x + 1) % 250])
+        X = rng.choice(k.svars)
+        m, mf = T.mv(3), T.mv(3, ef=(x,))
+        plugs = [T.imp(T.evar(x), T.evar(y)), T.app(T.evar(x), T.sym(0)), T.evar(y), T.sym(0), T.mv(4), T.mv(4, ef=(x,)), T.ex(x, T.evar(x)), T.ex(y, T.evar(x))]
+        fam = [T.esub(m, x, rng.choice(plugs)), T.esub(m, y, rng.choice(plugs)), T.ssub(m, X, rng.choice(plugs)), T.ssub(mf, X, rng.choice(plugs)),
+               T.esub(T.esub(m, y, T.evar(x)), x, rng.choice(plugs)), T.esub(T.ssub(m, X, T.evar(x)), x, rng.choice(plugs)), T.ex(x, m), T.ex(y, T.esub(m, x, rng.choice(plugs))),
+               T.mu(X, T.app(T.svar(X), T.evar(x))), mf, T.imp(mf, T.esub(mf, y, T.evar(x)))]
+        P = rng.choice(fam)
+        if not T.wf_deep(P):
+            return
+        Q = rng.choice([T.sym(0), T.evar(y), T.mv(4, ef=(x,)), T.BOT])
+        self.put_pattern(Q)
+        self.put_pattern(P)
+        self.put(bytes([OP['Prop1'], OP['Instantiate'], 2, 0, 1]))      # |- P -> (Q -> P)
+        v = rng.choice([x, x, y, rng.choice(k.evars)])
+        self.put(bytes([OP['Generalization'], v]))
+        if not self.dead and rng.random() < 0.6 and len(self.m.memory) < 250 and self.m.stack and self.m.stack[-1][0] == 'T':
+            self.put(bytes([OP['Save']]))
+
     def op_mu_probe(self):
         """mu X . body with bodies on both sides of the documented positivity judgement."""
         rng, k = self.rng, self.k
@@ -312,6 +337,8 @@ class StreamGen:
                 self.op_capture_probe()
             elif op == 'muprobe':
                 self.op_mu_probe()
+            elif op == 'freshprobe':
+                self.op_fresh_probe()
             elif op == 'junk':
                 self.put(bytes([rng.choice([0, 1, 16, 17, 18, 20, 23, 25, 31, 99, 136, 138, 255])]))
             if not self.dead and self.m.stack and self.m.stack[-1][0] == 'T':
